@@ -58,6 +58,7 @@ class Report:
         self.t0 = time.time()
         self.min_instances: dict = {}
         self.pins: dict = {}
+        self.undecided_msgs: list = []
 
     # ---------------------------------------------------------------- recording
     def ob(self, rule, construct, ok, msg, loc=None, detail="", trivial=False, extra=None):
@@ -70,6 +71,20 @@ class Report:
         of a group fail, the function was restructured and the verdict is 'cannot decide' (exit 2), never an alarm."""
         self.pins.setdefault(group, []).append(len(self.obs))
         return self.ob(rule, construct, ok, msg, loc, detail, trivial, extra)
+
+    def undecided(self, msg: str) -> None:
+        """A rule (or part of one) could not be decided.  Never an alarm by itself: if the run finds no violation the
+        check exits 2; violations found by other rules of the property are still reported (exit 1)."""
+        if msg not in self.undecided_msgs:
+            self.undecided_msgs.append(msg)
+
+    def section(self, fn, *args, **kw):
+        """Run one group of rules; an AnalysisError inside it is recorded as undecided instead of aborting the check."""
+        try:
+            return fn(*args, **kw)
+        except AnalysisError as e:
+            self.undecided(f"{getattr(fn, '__name__', 'section')}: {e}")
+            return None
 
     def saw(self, kind: str, item) -> None:
         self.analysed.setdefault(kind, [])
@@ -102,17 +117,22 @@ class Report:
         for rule, n in self.min_instances.items():
             got = self.count(rule)
             if got < n:
-                raise AnalysisError(
+                self.undecided(
                     f"rule {rule} matched {got} instance(s), fewer than the {n} confirmed by hand "
                     f"-- the rule's subject moved or an idiom is no longer recognised"
                 )
         for group, idxs in self.pins.items():
             bad = [i for i in idxs if not self.obs[i].ok]
             if bad and len(idxs) >= 2 and len(bad) * 2 > len(idxs):
-                raise AnalysisError(
+                self.undecided(
                     f"pinned idiom group '{group}': {len(bad)} of {len(idxs)} shape rules do not match -- the code was "
                     f"restructured beyond what the idiom table knows (first: {self.obs[bad[0]].rule} {self.obs[bad[0]].construct})"
                 )
+                # a restructured group gives no verdict: drop its failures
+                for i in bad:
+                    self.obs[i].ok = True
+                    self.obs[i].msg = "(pinned idiom group restructured: not decided) " + self.obs[i].msg
+                    self.obs[i].trivial = True
         known, _fixed = self._known()
         known_keys = {
             (k["rule"], k["construct"], k.get("detail", "")): k
@@ -190,6 +210,12 @@ class Report:
             os.makedirs(EVIDENCE_DIR, exist_ok=True)
             with open(os.path.join(EVIDENCE_DIR, f"{self.prop}.json"), "w") as fh:
                 json.dump(ev, fh, indent=1, default=str)
+        for m in self.undecided_msgs:
+            lines.append(f"UNDECIDED: {m}")
+        ev["coverage"]["undecided"] = list(self.undecided_msgs)
+        if write:
+            with open(os.path.join(EVIDENCE_DIR, f"{self.prop}.json"), "w") as fh:
+                json.dump(ev, fh, indent=1, default=str)
         self.result_lines = lines
         self.new = new
         self.old = old
@@ -201,7 +227,11 @@ class Report:
             )
             for ln in lines:
                 print(ln)
-        return 1 if new else 0
+        if new:
+            return 1
+        if self.undecided_msgs:
+            raise AnalysisError("; ".join(self.undecided_msgs)[:600])
+        return 0
 
     def _per_rule(self):
         out: dict = {}
